@@ -2,6 +2,7 @@ import einx._src.tracer as tracer
 import numpy as np
 from collections import defaultdict
 import itertools
+import keyword
 from einx._src.util import pytree
 
 
@@ -594,11 +595,15 @@ def compile(object, return_code=False):
     variableid_to_name = {}
 
     def names():
+        # Skip Python keywords (e.g. "as", "if") and names that are already used for imports, constants and functions (e.g. "np", "op")
+        reserved = {name for names in name_hints.values() for name in names}
         chars = [chr(i) for i in range(ord("a"), ord("z") + 1)]
         length = 1
         while True:
             for name in itertools.product(chars, repeat=length):
-                yield "".join(name)
+                name = "".join(name)
+                if not keyword.iskeyword(name) and name not in reserved:
+                    yield name
             length += 1
 
     names = names()
